@@ -253,6 +253,19 @@ func (b *V1) AliasProbe(c, t, kind string, item, item2 Item) *Resp {
 			}
 			mutateItemV1(vals)
 			mutateItemV1(key)
+		case "upsert-input", "upsert-native":
+			// UpdateItem on a key that holds no item: the new item is seeded from the request's Key structure
+			if kind == "upsert-native" {
+				cl.ActivateNativeInterpreter()
+				cl.GetNativeInterpreter().AddUpdater(t, "SET val = :v", func(it, attrs map[string]*mtypes.Item) { it["val"] = attrs[":v"] })
+			}
+			vals := map[string]*v1ddb.AttributeValue{":v": ToV1(item["val"])}
+			key := ItemToV1(keyOf(item))
+			if _, err := cl.UpdateItem(&v1ddb.UpdateItemInput{TableName: tn, Key: key, UpdateExpression: aws.String("SET val = :v"), ExpressionAttributeValues: vals}); err != nil {
+				return fail(err)
+			}
+			mutateItemV1(vals)
+			mutateItemV1(key)
 		case "update-output":
 			if err := put(item); err != nil {
 				return fail(err)
@@ -394,6 +407,18 @@ func (b *V2) AliasProbe(c, t, kind string, item, item2 Item) *Resp {
 		case "update-input":
 			if err := put(keyOf(item)); err != nil {
 				return fail(err)
+			}
+			vals := map[string]v2types.AttributeValue{":v": ToV2(item["val"])}
+			key := ItemToV2(keyOf(item))
+			if _, err := cl.UpdateItem(bg, &v2ddb.UpdateItemInput{TableName: tn, Key: key, UpdateExpression: v2aws.String("SET val = :v"), ExpressionAttributeValues: vals}); err != nil {
+				return fail(err)
+			}
+			mutateItemV2(vals)
+			mutateItemV2(key)
+		case "upsert-input", "upsert-native":
+			if kind == "upsert-native" {
+				cl.ActivateNativeInterpreter()
+				cl.GetNativeInterpreter().AddUpdater(t, "SET val = :v", func(it, attrs map[string]*mtypes.Item) { it["val"] = attrs[":v"] })
 			}
 			vals := map[string]v2types.AttributeValue{":v": ToV2(item["val"])}
 			key := ItemToV2(keyOf(item))
